@@ -219,13 +219,22 @@ class TranslateNode(Node, TranslatableTag):
         if not self.singular_block.block.nodes:
             return ()
 
-        message_context = self.args.get(self.message_context_var)
+        message_context_arg = self.args.get(self.message_context_var)
+
+        # An empty message context is ignored when rendering. See
+        # `resolve_message_context`.
+        message_context = (
+            message_context_arg.value.value
+            if message_context_arg
+            and isinstance(message_context_arg.value, StringLiteral)
+            else None
+        )
 
         if self.plural_block:
-            if message_context and isinstance(message_context.value, StringLiteral):
+            if message_context:
                 funcname = "npgettext"
                 message: MESSAGES = (
-                    (message_context.value.value, "c"),
+                    (message_context, "c"),
                     self.singular_block.text,
                     self.plural_block.text,
                 )
@@ -235,10 +244,10 @@ class TranslateNode(Node, TranslatableTag):
                     self.singular_block.text,
                     self.plural_block.text,
                 )
-        elif message_context and isinstance(message_context.value, StringLiteral):
+        elif message_context:
             funcname = "pgettext"
             message = (
-                (message_context.value.value, "c"),
+                (message_context, "c"),
                 self.singular_block.text,
             )
         else:
